@@ -61,6 +61,7 @@ type interpreter struct {
 	rawInit  *ssa.Function
 	wantInit map[string]bool
 	sched    *scheduler // goroutine mode (nil = sequential)
+	lastSchedule string // schedule of the goroutine-mode run that just ended
 	fs       *fsModel
 	userData map[string]any
 }
